@@ -7,7 +7,7 @@ ID="$1"; shift
 for d in "$@"; do
   case "$d" in /*) ;; *) d="$PWD/$d";; esac
   T=$(mktemp -d "${TMPDIR:-/tmp}/govc-seed-XXXXXX")
-  cp -r /repo "$T/repo"
+  cp -r "${REPO_BASE:-/repo}" "$T/repo"
   if ! git -C "$T/repo" apply "$d/patch.diff" 2>/dev/null; then echo "seed $d: patch does not apply"; rm -rf "$T"; continue; fi
   out=$(./bin/govc check --prop "$ID" --repo "$T/repo" --no-evidence 2>&1); code=$?
   names=$(echo "$out" | sed -n 's/.*replay=\(\S*\).*/\1/p' | xargs -r grep -h "^failed obligation:" 2>/dev/null | sed 's/failed obligation: //' | head -4 | tr '\n' ';')
